@@ -16,6 +16,13 @@ use crate::interp::*;
 use crate::iters::{Hint, Scripted, take_id};
 use crate::vecapi::*;
 
+/// The claim guard of the arena, type-erased (C14).
+pub trait ClaimedArena {
+    fn allocated(&self) -> usize;
+    fn chunks(&self) -> usize;
+    fn try_alloc_bytes(&self, bytes: &[u8]) -> Option<*const u8>;
+}
+
 pub struct Noise {
     pub ptr: *const u8,
     pub len: usize,
@@ -177,13 +184,15 @@ fn check_created<E: Elem, V: VecApi<E>>(ctx: &mut Ctx, v: &V, m: &mut Vec<u32>, 
 
 // ------------------------------------------------------------------ BumpVec
 
-pub fn drive_bumpvec<'b, E: Elem, B: BumpAllocatorTypedScope<'b> + Clone>(ctx: &mut Ctx, bump: &B) {
+pub fn drive_bumpvec<'b, 'c, E: Elem, B: BumpAllocatorTypedScope<'b> + Clone>(ctx: &mut Ctx, bump: &B, claimer: &'c dyn Fn() -> Box<dyn ClaimedArena + 'c>) {
     let mut vs: Vec<BumpVec<E, B>> = Vec::new();
     let mut ms: Vec<Vec<u32>> = Vec::new();
     let mut ps: Vec<Promise> = Vec::new();
     let mut boxes: Vec<BumpBox<'b, [E]>> = Vec::new();
     let mut mboxes: Vec<Vec<u32>> = Vec::new();
     let mut noise: Vec<Noise> = Vec::new();
+    let mut guard: Option<Box<dyn ClaimedArena + 'c>> = None;
+    let mut guard_mem = (0usize, 0usize);
 
     while let Some(op) = ctx.next_op() {
         let what = OP_NAMES[op.kind as usize];
@@ -191,6 +200,35 @@ pub fn drive_bumpvec<'b, E: Elem, B: BumpAllocatorTypedScope<'b> + Clone>(ctx: &
             eprintln!("[{}] {} | vecs {:?} boxes {:?}", ctx.cur_op, sim::trace::op_text(&op, OP_NAMES), ms.iter().map(|m| m.len()).collect::<Vec<_>>(), mboxes.iter().map(|m| m.len()).collect::<Vec<_>>());
         }
         match op.kind {
+            K_CLAIM_OPS => {
+                // toggle: claim the arena the vectors live in / end the claim
+                if guard.is_none() {
+                    let g = claimer();
+                    guard_mem = (g.allocated(), g.chunks());
+                    guard = Some(g);
+                    ctx.claimed = true;
+                    ctx.stats.probe("claim.begin");
+                } else {
+                    guard = None;
+                    ctx.claimed = false;
+                    ctx.stats.probe("claim.end");
+                }
+            }
+            K_NOISE if guard.is_some() => {
+                // the guard keeps allocating while the vectors' handle is inert
+                let g = guard.as_ref().unwrap();
+                let len = 1 + op.a[0] as usize % 40;
+                let seed = (op.a[1] % 250) as u8;
+                let bytes: Vec<u8> = (0..len).map(|i| noise_byte(seed, i)).collect();
+                heap::with(0, |h| h.begin_op(ctx.cur_op as u32 + 1, if op.fail_nth != 0 { Some(op.fail_nth) } else { None }, op.burst));
+                let r = g.try_alloc_bytes(&bytes);
+                heap::with(0, |h| h.end_op());
+                if let Some(ptr) = r {
+                    noise.push(Noise { ptr, len, seed });
+                    ctx.stats.probe("claim.guard_allocated");
+                }
+                guard_mem = (g.allocated(), g.chunks());
+            }
             K_NEW => {
                 if vs.len() < 4 {
                     if let Some((v, mut m, p)) = new_bumpvec::<E, B>(ctx, bump, &op) {
@@ -459,11 +497,27 @@ pub fn drive_bumpvec<'b, E: Elem, B: BumpAllocatorTypedScope<'b> + Clone>(ctx: &
             }
             _ => {}
         }
+        if let Some(g) = &guard {
+            let now = (g.allocated(), g.chunks());
+            if now != guard_mem {
+                if ctx.on.c14 {
+                    ctx.viol("C14/claimed-handle-changed-arena", format!("{what} through the claimed original handle changed the arena: allocated/chunks {guard_mem:?} -> {now:?}"));
+                }
+                guard_mem = now;
+            }
+        }
         verify_all(ctx, &vs, &ms, &noise, what);
         verify_all(ctx, &boxes, &mboxes, &[], what);
     }
+    if guard.is_some() && ctx.trace.seed & 1 == 0 {
+        // half of the runs end the claim before the vectors go away
+        guard = None;
+        ctx.claimed = false;
+    }
     drop(vs);
     drop(boxes);
+    drop(guard);
+    ctx.claimed = false;
     ctx.drain_errors();
 }
 
@@ -1482,10 +1536,24 @@ where
             }
         }
         2 => {
+            struct G<'b, 'a, A: BaseAllocator<S::GuaranteedAllocated>, S: BumpAllocatorSettings>(bump_scope::BumpClaimGuard<'b, 'a, A, S>);
+            impl<A: BaseAllocator<S::GuaranteedAllocated>, S: BumpAllocatorSettings> ClaimedArena for G<'_, '_, A, S> {
+                fn allocated(&self) -> usize {
+                    self.0.stats().allocated()
+                }
+                fn chunks(&self) -> usize {
+                    self.0.stats().count()
+                }
+                fn try_alloc_bytes(&self, bytes: &[u8]) -> Option<*const u8> {
+                    self.0.try_alloc_slice_copy(bytes).ok().map(|b| b.into_ref().as_ptr())
+                }
+            }
+            let original = bump.as_scope();
+            let claimer = || -> Box<dyn ClaimedArena + '_> { Box::new(G(original.claim())) };
             if carrier == 0 {
-                drive_bumpvec::<E, _>(ctx, &&bump)
+                drive_bumpvec::<E, _>(ctx, &&bump, &claimer)
             } else {
-                drive_bumpvec::<E, _>(ctx, &bump.as_scope())
+                drive_bumpvec::<E, _>(ctx, &bump.as_scope(), &claimer)
             }
         }
         3 => {
